@@ -24,6 +24,11 @@ def run(tier, seed):
     vlib.trace_leg_known(rep, "Trace_Rot.tla", "Trace_Rot.cfg", tr, "rotation_derivatives",
                          "dR/droll, dR/dpitch, dR/dyaw and dRTdAngles of SmartRotation3D against the exact derivatives",
                          "C12-smartrotation-derivative-leftover")
+    tr = os.path.join(W, "smartgen.ndjson")
+    vlib.run([exe, "smartgen", str(seed), str(20000 if quick else 300000), tr], timeout=600)
+    vlib.trace_leg_known(rep, "Trace_Rot.tla", "Trace_Rot.cfg", tr, "rotation_derivatives_generic",
+                         "derivative matrices and dRTdAngles at generic angle triples (zero angles included) against the closed-form derivatives",
+                         "C12-smartrotation-derivative-leftover")
     # (2) covariance of a rigidly transformed pose = J C J^T
     exe = c11.build()
     tr = os.path.join(W, "pose.ndjson")
